@@ -410,6 +410,14 @@ func (node *Node) ProcessBlock(ctx context.Context, block wire.Block) error {
 				},
 			}
 
+			// The tx can have been reported before, when the block that confirmed it was reorged
+			// out. Once it was reported unsafe or cancelled it must not be reported safe.
+			previous, err := handlersstorage.FetchTxState(ctx, node.store, *tx.TxHash())
+			if err == nil && (previous.State.UnSafe || previous.State.Cancelled) {
+				txState.State.Safe = false
+				txState.State.UnSafe = true
+			}
+
 			if err := fetchSpentOutputs(ctx, node.store, node.outputFetcher, txState); err != nil {
 				node.txs.ReleaseUnconfirmed(ctx)
 				return errors.Wrap(err, "fetch outputs")
